@@ -1149,11 +1149,11 @@ V(id='c37-benign-rename-both', prop='C37', file='mpmath/libmp/libintmath.py',
 # ------------------------------------------------ C13 (B-R7, B-R8), C15/C14 (C-R9) -------
 V(id='c13-nth-no-guard-bits', prop='C13', file='mpmath/libmp/libelefun.py',
   old="        nth = mpf_rdiv_int(1, fn, prec2)", new="        nth = mpf_rdiv_int(1, fn, prec)",
-  expect='fire:B-R7:mpf_nthroot')
+  expect='fire:B-R9:mpf_nthroot')
 V(id='c13-cospi-arg-no-guard-bits', prop='C13', file='mpmath/libmp/libmpc.py',
   old="    b = mpf_mul(b, mpf_pi(prec+5), prec+5)\n    if a == fzero:\n        return mpf_cosh(b, prec, rnd), fzero",
   new="    b = mpf_mul(b, mpf_pi(prec+5), prec)\n    if a == fzero:\n        return mpf_cosh(b, prec, rnd), fzero",
-  expect='fire:B-R7:mpc_cos_pi')
+  expect='fire:B-R9:mpc_cos_pi')
 V(id='c13-benign-unguarded-consumer', prop='C13', file='mpmath/libmp/libelefun.py',
   old="    c = mpf_log(s, prec+10, rnd)\n    return mpf_exp(mpf_mul(t, c), prec, rnd)",
   new="    c = mpf_log(s, prec+12, rnd)\n    return mpf_exp(mpf_mul(t, c), prec, rnd)",
